@@ -45,6 +45,7 @@ sender-name resolution, governance pre-checks of `validateTx`; the fee rule ente
 -/
 import Aergo.Lemmas.PoolChain
 import Aergo.Lemmas.PoolLocks
+import Aergo.Gen.PoolLocksSynth
 import Aergo.Lemmas.PoolSafe
 
 namespace Aergo.Props.C13
@@ -884,8 +885,10 @@ example : ¬ PInv (cstep (cstep Pool.init (.locked ⟨7, 1, 21, 5, false⟩)) (.
 the second half of `put` as atomic steps. That is what the source does as long as every access to the pool's shared
 state sits inside a `mp.Lock()` (writes) / `mp.RLock()` (reads) section. `tools/goext poollocks` re-reads mempool.go,
 txverifier.go and txlist.go on every run and tabulates every write / read / list mutation / index update with the
-lock level held at that point; `Aergo.PoolLocks.violations` computes the entry level of the helper functions from
-their call sites and lists what is not sufficiently locked. -/
+lock level held at that point; `Aergo.PoolLocks.violations` makes the table interprocedural — an unexported function that
+is never used as a value is entered with the weakest level over ALL its call sites (fixpoint for helpers of helpers; no
+call site ⇒ none), so extracting a helper that is called where the lock is already held changes nothing, while a helper
+with one unlocked call site is unlocked — and lists what is not sufficiently locked. -/
 
 /-- In the current source every write to the pool map, the counters, the best-block fields and the state DB handle,
 every list mutation and every hash-index update happens under the pool's exclusive lock, and every read of those
@@ -893,6 +896,16 @@ fields under at least the shared lock — except the accesses listed (and explai
 Changing `evictTransactions` or `removeTx` to the read lock, dropping a lock, or moving `length++` / `orphan -= diff`
 / `cache.Store` out of the critical section of `put` adds an entry that is not listed and breaks this theorem. -/
 theorem lock_discipline : Aergo.PoolLocks.allKnown Aergo.Gen.PoolLocks.fns = true := by decide
+
+/-- Self-test of the extractor + checker on the synthetic cases of corpus/C13/locks/synth.go (regenerated on every run
+like the real table): a helper called only under the exclusive lock, a helper of such a helper, a plain function taking
+the pool, and a reading helper under the read lock are fine; flagged are exactly: an exported method (callable from
+anywhere), an unlocked read, a helper called after the lock was released, a helper with one locked and one unlocked call
+site, a helper used as a value, a helper writing under the read lock (level 1), a helper without any call site. -/
+theorem lock_checker_selftest :
+    Aergo.PoolLocks.violations Aergo.Gen.PoolLocksSynth.fns =
+      [⟨"Exported", 0, "length", 0⟩, ⟨"Peek", 1, "orphan", 0⟩, ⟨"after", 0, "orphan", 0⟩, ⟨"drop", 0, "pool", 0⟩,
+       ⟨"escaped", 0, "orphan", 0⟩, ⟨"touch", 0, "orphan", 1⟩, ⟨"unused", 0, "length", 0⟩] := by decide
 
 /-- The shape `schedule_inv` assumes for `put`: list insertion, both counter updates, the index update and the
 acquire / release of the per-account list are all there and all under the exclusive lock (where the pre-check
